@@ -3,7 +3,7 @@
     for a sample and by the extracted checker for all; the tie of [Sem.step_tree] to the emitted C is C06's sweep). *)
 From Coq Require Import NArith Arith List Bool.
 Import ListNotations.
-From NV Require Import Machine.Dfa Machine.Sem Machine.NoSpin Machine.Work CSkel.Store CSkel.Run.
+From NV Require Import Machine.Dfa Machine.Sem Machine.NoSpin Machine.Work Machine.CallEquiv Machine.CallTotal CSkel.Store CSkel.Run.
 
 (** every dispatch - of a byte or of the end of input - terminates, from every state, for every data value and every
     data semantics: the number of labels passed is at most [fuel_of d] by construction of [Sem.nf] *)
@@ -64,6 +64,17 @@ Proof.
   exists evs. split; [exact He|]. exact (feed_go_work cdata (cexec cfg) (cevalt cfg) d bs Hb q x 0 [] _ He).
 Qed.
 Print Assumptions c04_concrete_feed_work_linear.
+
+(** at the level of the caller: every history of feed / end calls returns, call after call (end() included: its dispatch
+    never ends in a consumption), and the work of the whole history is linear in the bytes offered plus the end() calls *)
+Theorem c04_every_call_history_returns : forall D exec evalt d, norm_ok d = true ->
+  forall cs, Forall call_bytes cs -> forall q x, history D exec evalt d cs q x <> None.
+Proof. exact history_returns. Qed.
+Print Assumptions c04_every_call_history_returns.
+Theorem c04_history_work_linear : forall D exec evalt d cs, Forall call_bytes cs -> forall q x l x',
+  history D exec evalt d cs q x = Some (l, x') -> total_work l <= total_size cs * work_bound d.
+Proof. exact history_work_linear. Qed.
+Print Assumptions c04_history_work_linear.
 
 (** non-vacuity: a two-transition machine (yield 5 on a, primitive 7 on b) carries the certificates; its constant is 1,
     and a spinning machine (state 0 falls through to itself on every byte) is refused *)
